@@ -734,6 +734,40 @@ theorem conc_allowed_membership_holds (k : CCase) (ha : cAllowed k = true) :
     rw [hf]; simp [(key m hm).2, (key f hfm).2]
   · simp only at hn; rcases hn with h | h | h <;> exact absurd h (by decide)
 
+/-- `cAllowed → cHolds` for the clause `pinset_kept`: whatever the model admits, every remaining member the bookkeeping
+    is sure of reports, on the cids the bookkeeping is sure of, exactly the bookkept pinset. -/
+theorem conc_allowed_pinset_kept (k : CCase) (ha : cAllowed k = true) :
+    ∀ c ∈ cCheckObs k.init (cFinal (cInit k.init) k.phases) k.obs, c.1 = "pinset_kept" → c.2 = true := by
+  unfold cAllowed at ha
+  obtain ⟨log, hlog, hobs⟩ := List.any_eq_true.1 ha
+  have S := cLogs_surePeers k.init k.phases log hlog
+  have P := conc_sure_pins_in_every_log k.init k.phases log hlog
+  generalize cFinal (cInit k.init) k.phases = s at S P ⊢
+  unfold fObsOk at hobs
+  simp only [Bool.and_eq_true, List.all_eq_true] at hobs
+  obtain ⟨h1, _⟩ := hobs
+  have key : ∀ m ∈ k.obs.members.filter
+      (fun m => k.init.contains m.id && s.members.contains m.id && !s.unsureP.contains m.id),
+      canonMap m.pins = canonMap (pinsAt log) := by
+    intro m hm
+    obtain ⟨hm1, hm2⟩ := List.mem_filter.1 hm
+    simp only [Bool.and_eq_true, Bool.not_eq_true'] at hm2
+    have hc : cfgHas (cfgAt log) m.id = true := by rw [S m.id hm2.2]; exact hm2.1.2
+    have := h1 m hm1
+    simp only [hm2.1.1, hc, Bool.and_self, Bool.not_true, Bool.false_or, Bool.and_eq_true, beq_iff_eq] at this
+    exact this.1.2
+  intro c hc hn
+  simp only [cCheckObs, List.mem_cons, List.not_mem_nil, or_false] at hc
+  generalize k.obs.members.filter
+      (fun m => k.init.contains m.id && s.members.contains m.id && !s.unsureP.contains m.id) = R at key hc
+  rcases hc with rfl | rfl | rfl | rfl
+  · simp only at hn; exact absurd hn (by decide)
+  · simp only at hn; exact absurd hn (by decide)
+  · simp only at hn; exact absurd hn (by decide)
+  · simp only [List.all_eq_true, beq_iff_eq]
+    intro m hm
+    exact surePins_kept P (key m hm)
+
 /-- a pin at the leader races with the leader's own removal: acknowledged pin present in either order -/
 def concCase (pins : PinMap) : CCase :=
   { retries := 1, init := [0, 1, 2],
